@@ -20,6 +20,8 @@ import KafkaVerif.Lemmas.GroupInv
 import KafkaVerif.Lemmas.GroupHb
 import KafkaVerif.Lemmas.GroupHbAlive
 import KafkaVerif.Lemmas.GroupResp
+import KafkaVerif.Lemmas.GroupWatch
+import KafkaVerif.Lemmas.GroupReq
 import KafkaVerif.Gen.GroupFacts
 
 namespace KV.Group.C15
@@ -355,6 +357,42 @@ theorem handed_has_heartbeat (c : Cfg) (s s' : St) (h : Reachable c s) (g : Nat)
   · rename_i hc; simp at hc; exact .inl hc.1.1.2
   · cases hs
 
+/-! ### one partition watcher per CONFIGURED topic -/
+
+/-- With WatchPartitionChanges (`nWatch` = number of configured topics) a generation that waits for hand-over or runs has
+exactly one watcher per configured topic — also for topics of which this member was assigned nothing (their partition
+count changing must end the generation too: `ctx_cancelled_on_partition_change` applies to each of them). -/
+theorem watchers_for_all_topics (c : Cfg) (s : St) (h : Reachable c s) (hp : s.pc = .handing ∨ s.pc = .running) :
+    s.cur.watchers.length = c.nWatch := by
+  have i := inv5_reachable c s h
+  unfold Inv5 inv5P at i
+  rcases hp with hp | hp <;> rw [hp] at i <;> exact i
+
+/-- regenerated: the watchers are started by ranging over the configured topics (`cg.config.Topics`), not over the
+assignment -/
+theorem watchers_match_source : KV.Gen.Group.watcherRange = "Topics" := by decide
+
+/-! ### the coordinator that is dialled is the one FindCoordinator named -/
+
+/-- regenerated: the address of the second `connect` in `coordinator()` is `net.JoinHostPort` of the answer's
+`Coordinator.Host` and `Coordinator.Port` (in this order) -/
+theorem coordinator_dial_matches_source : KV.Gen.Group.coordinatorDial = ["JoinHostPort", "Host", "Port"] := by decide
+
+/-- the dialled address names the coordinator's host and port (plain host names / IPv4; the driver compares
+`coordinatorAddress` with what the library dials, IPv6 literals included) -/
+theorem coordinator_address_plain (host : String) (port : Int) (h : host.contains ':' = false) :
+    coordinatorAddress host port = host ++ ":" ++ toString port := by
+  simp [coordinatorAddress, h]
+
+/-! ### nothing configured: the documented defaults are the configured values -/
+
+/-- regenerated: every `if config.<F> == 0 { config.<F> = … }` of `ConsumerGroupConfig.Validate`, resolved through the
+`default…` constants, gives the documented default of that field (3 s heartbeats, 30 s session and rebalance time-outs,
+5 s join back-off and watch interval, retention -1, FirstOffset, [range, roundrobin], 5 s time-out) — whatever the order
+of the statements -/
+theorem defaults_match_documentation :
+    documentedGroupDefaults.all (fun kv => KV.Gen.Group.validateDefaults.lookup kv.1 == some kv.2) = true := by decide
+
 /-! ### a generation only after a successful OffsetFetch (hypothesis of C03 `start_at_committed`) -/
 
 /-- a failed OffsetFetch — any error class — makes `nextGeneration` return the error: no generation can be created next -/
@@ -422,6 +460,23 @@ theorem heartbeat_answer_on_the_wire (code : Int) (hc : Fits 2 code) (topic : By
     opRead (simpleOp "heartbeat" KV.Gen.ConnLegacy.heartbeatResponseV0) 0 topic ⟨KV.Wire.encInt 2 code, 2⟩ =
       ((if code = 0 then Outcome.ok else Outcome.kafka code), ⟨[], 0⟩) :=
   errOnly_conclusion "heartbeat" _ rfl code hc topic
+
+/-- The requests as the coordinator receives them: the writers of the legacy Conn (re-extracted from leavegroup.go,
+heartbeat.go, joingroup.go, syncgroup.go, findcoordinator.go on every run: `Gen/Legacy.lean`) emit the Kafka layouts with
+every field in its place BY NAME — in particular LeaveGroup carries `group_id` then `member_id` ("closing the group sends
+LeaveGroup for the current member id" reaches the broker as such), Heartbeat `group_id generation_id member_id`. -/
+theorem group_requests_on_the_wire :
+    (∀ t, KV.Gen.Legacy.leaveGroupRequestV0.writeTo t = KV.Spec.GroupWire.Req.leaveGroup t.GroupID t.MemberID) ∧
+    (∀ t, KV.Gen.Legacy.heartbeatRequestV0.writeTo t = KV.Spec.GroupWire.Req.heartbeat t.GroupID t.GenerationID t.MemberID) ∧
+    (∀ t, KV.Gen.Legacy.findCoordinatorRequestV0.writeTo t = KV.Spec.GroupWire.Req.findCoordinator t.CoordinatorKey) ∧
+    (∀ t, KV.Gen.Legacy.joinGroupRequest.writeTo t =
+      KV.Spec.GroupWire.Req.joinGroup t.GroupID t.SessionTimeout t.RebalanceTimeout t.MemberID t.ProtocolType
+        (t.GroupProtocols.map fun p => (p.ProtocolName, p.ProtocolMetadata))) ∧
+    (∀ t, KV.Gen.Legacy.syncGroupRequestV0.writeTo t =
+      KV.Spec.GroupWire.Req.syncGroup t.GroupID t.GenerationID t.MemberID
+        (t.GroupAssignments.map fun a => (a.MemberID, a.MemberAssignments))) :=
+  ⟨KV.GroupReq.leave_layout, KV.GroupReq.heartbeat_layout, KV.GroupReq.findCoordinator_layout, KV.GroupReq.join_layout,
+   KV.GroupReq.sync_layout⟩
 
 end WireAnswers
 
